@@ -153,6 +153,43 @@ func main() {
 				}
 			}
 		}
+		if os.Getenv("ZCHECK_RETURNS") != "" {
+			r := &Run{P: p, Funcs: map[string]bool{}, Regions: map[string]int{}}
+			var rrows []trow
+			for _, n := range p.FuncNames() {
+				fn := p.Fn(n)
+				if fn.Blocks == nil {
+					continue
+				}
+				file, _ := p.FnPos(fn)
+				keep := false
+				for f := range files {
+					if strings.HasPrefix(file, f) {
+						keep = true
+					}
+				}
+				if !keep || strings.HasSuffix(file, ".pb.go") {
+					continue
+				}
+				forms := r.successForms(fn)
+				if os.Getenv("ZCHECK_RETURNS") == "guards" {
+					forms = r.mustPassGuards(fn)
+				}
+				if os.Getenv("ZCHECK_RETURNS") == "effects" {
+					forms = nil
+					for c := range r.mustPassEffects(fn) {
+						forms = append(forms, c)
+					}
+					sort.Strings(forms)
+				}
+				for _, s := range forms {
+					rrows = append(rrows, trow{n, s, file})
+				}
+			}
+			b, _ := json.MarshalIndent(rrows, "", " ")
+			fmt.Println(string(b))
+			return
+		}
 		if os.Getenv("ZCHECK_EFFECTS") != "" {
 			var erows []trow
 			for _, n := range p.FuncNames() {
